@@ -111,8 +111,15 @@ def beyond_enumeration(case, m, ast):
     no factor carries a weight (so two sequences that print identically ARE the same solution, B.8 does not apply) and the
     sampler can be exhausted within the bounds, every returned sequence must be printed differently from every other."""
     strat = case["strategy"]
+    # (the statement excuses identical printing only for "a weighted level of a factor outside the crossing": weights on
+    # crossed factors, basic or derived, do not make two sequences print alike)
+    crossed = set()
+    for b_ in dast.iter_blocks(ast["block"]):
+        if b_["kind"] in ("cross", "multicross"):
+            for cr in dast.block_crossings(b_):
+                crossed.update(cr)
     weighted = any((lv[1] if f["kind"] == "basic" else lv.get("weight", 1)) != 1
-                   for f in ast["factors"] if f["kind"] in ("basic", "derived") for lv in f["levels"])
+                   for f in ast["factors"] if f["kind"] in ("basic", "derived") and f["id"] not in crossed for lv in f["levels"])
     if weighted or case.get("faults") or strat == "IterateGen" or m.status != "ok":
         return {"outcome": "skip", "reason": "too-big"}
     N = 3000
